@@ -53,8 +53,9 @@ const (
 
 // listItem represents an item in a list.
 type listItem struct {
-	Text  string
-	Level int
+	Text    string
+	Level   int
+	Ordered bool // kind of the list this item belongs to (a nested list may differ from the outer one)
 }
 
 // ParsedTable represents a table extracted from HTML.
